@@ -39,6 +39,15 @@ def run(ctx):
     binary = vlib.build_harness(ctx)
     vlib.design_check(ctx, "agwpe", "Agwpe", "Agwpe_block.cfg")
     vlib.design_check(ctx, "agwpe", "AgwpeTx", "AgwpeTx_safety.cfg")
+    vlib.design_check(ctx, "agwpe", "AgwpeMux", "AgwpeMux_safety.cfg")
+    if ctx.tier != "quick":
+        vlib.design_check(ctx, "agwpe", "AgwpeMux", "AgwpeMux_three.cfg")
+    lv = vlib.tlc(ctx, "agwpe", "AgwpeMux", "AgwpeMux_liveness.cfg")
+    if not lv.ok:
+        raise vlib.Undecided("AgwpeMux_liveness.cfg: %s" % (lv.error or lv.out[-500:]))
+    bp = vlib.tlc(ctx, "agwpe", "AgwpeMux", "AgwpeMux_byport.cfg")
+    if bp.violated != "FlushSound":
+        raise vlib.Undecided("the deviation MatchByPort of AgwpeMux.tla no longer violates FlushSound")
     obs = vlib.tlc(ctx, "agwpe", "AgwpeTx", "AgwpeTx_liveness.cfg")
     ctx.notes.append("AgwpeTx_liveness.cfg: WriteReturns %s (observation, not part of C13: a TNC that transmits a frame before the next poll is never "
                      "seen with an outstanding frame)" % ("violated" if obs.error else "holds"))
@@ -109,6 +118,29 @@ def run(ctx):
                 msg = "SPEC-DRIFT: AgwpeTx.tla cannot follow the transmit log of schedule %s at position %d: ... %s" % (r["scen"], tl, shown)
                 print(msg[:500])
                 ctx.drift.append(msg)
+    # several connections on one port: the TNC's per-connection log against AgwpeMux.tla
+    mux_rows = []
+    for row in rows:
+        for ev in row["ev"]:
+            if ev["op"] == "MuxLog" and ev["log"]:
+                mux_rows.append({"t": len(mux_rows) + 1, "ev": ev["log"], "scen": row["scen"]})
+    xacc = 0
+    if mux_rows:
+        xf = ctx.path("mux.ndjson")
+        vlib.write_ndjson(xf, mux_rows)
+        xacc, xrej, _ = vlib.validate_traces(ctx, "agwpe", "AgwpeMuxTrace", "AgwpeMuxTrace.cfg", xf, len(mux_rows), name="mux")
+        for (tt, tl) in xrej:
+            r = mux_rows[tt - 1]
+            e = r["ev"][tl - 1] if 0 < tl <= len(r["ev"]) else {}
+            shown = [(x["op"], x["c"], x["n"]) for x in r["ev"]][max(0, tl - 8):tl]
+            if e.get("op") == "FlushRet":
+                vlib.report_violation(ctx, "C13/flush/not-this-connections-report",
+                                      "with two connections open on the port, Flush of %s returned although the TNC had not reported 0 outstanding frames "
+                                      "for that connection: ... %s" % (e.get("c"), shown), {"scenario": r["scen"], "log": r["ev"], "position": tl})
+            else:
+                msg = "SPEC-DRIFT: AgwpeMux.tla cannot follow the per-connection log of schedule %s at position %d: ... %s" % (r["scen"], tl, shown)
+                print(msg[:500])
+                ctx.drift.append(msg)
     for (t, l) in rejected:
         row = rows[t - 1]
         sc, ev = row["scen"], row["ev"][l - 1]
@@ -160,6 +192,7 @@ def run(ctx):
         "exhaustive": False,
         "loss_free_envelope_frames": env,
         "transmit_traces_validated": {"accepted": tacc, "total": len(tx_rows)},
+        "two_connection_traces_validated": {"accepted": xacc, "total": len(mux_rows)},
         "mechanism_traces_validated": macc,
         "mechanism_traces_total": len(mech_rows),
         "logged_drops_explained": drops,
